@@ -134,23 +134,25 @@ theorem markEnded_ids (id : Nat) (vol : List (VEff Content MetaRec WalRec LogRec
 
 /-! ## Well-formed concurrent traces
 
-ids are unique, an End names an effect that has begun, the End of an fsync matches an in-flight fsync of the same thread
-and file.  (The linearisation theorem of `Store/ConcLin.lean` does not need these; they say when the machine above means
-what the prose says: with unique ids `markEnded` touches one effect and `covers` names the same effects at the End of an
-fsync as at its Begin.) -/
+ids are unique and an End names an effect that has begun.  (The End of an fsync that matches no in-flight fsync of the
+same thread and file is the completion of an fsync issued before the trace started; it is a no-op, as in the monitor.)
+The linearisation theorem of `Store/ConcLin.lean` and the crash theorems need NO well-formedness; it says when the
+machine above means what the prose says: with unique ids `markEnded` touches one effect, and `covers` names the same
+effects at the End of an fsync as at its Begin.  The abstraction of a trace the monitor accepts has ids = positions of
+the Begin lines (`Store/TraceOrderSim.lean`, `MInv`). -/
 
-def CWfStep (seen : List Nat) (s : CState Content MetaRec WalRec LogRec) : CEv Content MetaRec WalRec LogRec → Prop
+def CWfStep (seen : List Nat) : CEv Content MetaRec WalRec LogRec → Prop
   | .effBegin id _ => id ∉ seen
   | .effEnd id => id ∈ seen
   | .fsyncBegin _ _ => True
-  | .fsyncEnd tid f => (takeCSync f tid s.syncs).isSome
+  | .fsyncEnd _ _ => True
 
 def seenStep (seen : List Nat) : CEv Content MetaRec WalRec LogRec → List Nat
   | .effBegin id _ => id :: seen
   | _ => seen
 
-def CWf : List Nat → CState Content MetaRec WalRec LogRec → List (CEv Content MetaRec WalRec LogRec) → Prop
-  | _, _, [] => True
-  | seen, s, ev :: rest => CWfStep seen s ev ∧ CWf (seenStep seen ev) (cstep s ev) rest
+def CWf : List Nat → List (CEv Content MetaRec WalRec LogRec) → Prop
+  | _, [] => True
+  | seen, ev :: rest => CWfStep seen ev ∧ CWf (seenStep seen ev) rest
 
 end NomtDisk
